@@ -49,6 +49,11 @@ for _n in (10239, 10240, 10241, 10300):
     JUNK.append(b"on q[" + b",".join(b"%d" % (2 * i) for i in range(_n)) + b"]")
 JUNK.append(b"status q[" + b",".join(b"%d-%d" % (3 * i, 3 * i + 1) for i in range(10241)) + b"]")
 
+# printf conversions inside node names (a name is data wherever it is echoed: 209 No such nodes, 205, telemetry)
+for _w in (b"on", b"status", b"off", b"cycle", b"temp", b"device"):
+    for _t in (b"t%s%s%s%s%s%s", b"rack%5dnode", b"a%c%c%c%c", b"%n%n%n%n", b"t%%x", b"n0,%s", b"x[1-3]%d", b"%999999999s", b"%1$s%2$n"):
+        JUNK.append(_w + b" " + _t)
+
 LINEMAX = 131072          # cross-checked against Gen/GenConsts.v in correspond()
 
 
